@@ -1,8 +1,10 @@
 #!/bin/bash
-# usage: runall.sh [tier] -- run every registered check once, print exit code and wall time
+# usage: runall.sh [tier] [ID...] -- run every registered check (or the listed ones) once, print exit code and wall time
 cd "$(dirname "$(readlink -f "$0")")"
 tier=${1:-quick}
-for p in C01 C02 C03 C04 C05 C06 C07 C08 C09 C10 C11 C12 C13 C14 C15 C16 C17 C18 C19 C20; do
+shift
+ids=${@:-C01 C02 C03 C04 C05 C06 C07 C08 C09 C10 C11 C12 C13 C14 C15 C16 C17 C18 C19 C20}
+for p in $ids; do
   s=$(date +%s)
   ./check $p --tier $tier > /tmp/runall-$p.log 2>&1
   rc=$?
